@@ -17,6 +17,8 @@ flags (trigger predicates computed from the input only):
   F06s  XPath 1.0: string→number conversion differs from number() (exponent, '+', INF, Unicode space)
   idef  idiv/mod on decimals whose quotient has more than 28 digits (no spec comparison)
   big   xs:double idiv with |quotient| ≥ 2^51 (Python's float floor division is not exact there)
+  fhyp  xs:float-typed operation inside the hypotheses of float_ops_eq_spec_up_to_rounding: impl must equal specI
+  ovf   an integer operand beyond the xs:double range meets a float (FOAR0002 or ±INF both conform: no spec comparison)
 The model is run with the concrete round-to-nearest-even `FOArith.ieee` for `R`.
 -/
 import EPV.Proto
@@ -144,7 +146,8 @@ def answer (line : String) : String :=
         let si := if floatTyped a b then showRes ((specBin (implR R) op (absNum a) (absNum b)).map clampX) else "_"
         let fl := flagsStr [
           (trigF06c_bin op a b, "F06c"), (trigF06t R v op a b, "F06t"), (trigF06x R v op a b, "F06x"),
-          (trigQuot28 op a b, "idef"), (trigBig R op a b, "big")]
+          (trigQuot28 op a b, "idef"), (trigBig R op a b, "big"), (trigOvf R a b, "ovf"),
+          (floatTyped a b && floatHyp R op a b, "fhyp")]
         s!"model={showRes (m.map absNum)} spec={showRes s} specI={si} flags={fl}"
       | some _, none => "bad-b"
       | none, _ =>
@@ -156,7 +159,7 @@ def answer (line : String) : String :=
           let s0 := specUn R op (absNum a)
           let s := match op with | .neg | .pos | .abs => ctxDec s0 | _ => s0
           let si := if isFlt a then showX (clampX (specUn (implR R) op (absNum a))) else "_"
-          let fl := flagsStr [(trigF06c_un op a, "F06c"), (trigF06p op a, "F06p")]
+          let fl := flagsStr [(trigF06c_un op a, "F06c"), (trigF06p op a, "F06p"), (isFlt a, "fhyp")]
           s!"model={showX (absNum m)} spec={showX s} specI={si} flags={fl}"
 
 def main : IO Unit := mainLoop answer
